@@ -122,6 +122,9 @@ class C12(Check):
                     if not all_null:
                         out.fail("dtype", f"{kind}:static-null-nonnull", f"{kind}: column {name} has static type NullType but exports {got} with values")
                     continue
+                if kind == "polars" and str(got).startswith("List") and any(s_["verb"] == "summarize" for s_ in case["steps"]):
+                    out.count("engine_quirk:polars_agg_returns_list")  # DESIGN 4.15 (j)
+                    continue
                 if kind == "polars":
                     if is_concrete(static):
                         from pydiverse.transform._internal.tree import types
